@@ -150,6 +150,40 @@ Lemma sx_if_S : forall f c cns alt m,
     if truthy v then sblock f cns m2
     else match alt with Some a => sblock f a m2 | None => XNormal m2 end)).
 Proof. reflexivity. Qed.
+(* `l.r`: only l is evaluated; every other infix operator evaluates both operands *)
+Lemma sx_dot_S : forall g l r m,
+  sx (S g) (EInfix TPeriod l r) m =
+  then_ (sx g l m) (fun m1 => pop1s m1 (fun a m2 =>
+    pushr m2 (match estr 64 r with Some name => spec_index o a (VStr name) | None => Err ENeedOracle end))).
+Proof. reflexivity. Qed.
+Lemma sx_infix_S : forall g op l r m, op <> TPeriod ->
+  sx (S g) (EInfix op l r) m =
+  then_ (sx g l m) (fun m1 => then_ (sx g r m1) (fun m2 =>
+    match mutator_op op with
+    | Some bop =>
+        match l with
+        | EIdent name =>
+            pop2s m2 (fun b a m3 =>
+              match spec_binop o bop a b with
+              | Ok v => XNormal (set_menv m3 (env_set (menv m3) (trim_dollar name) v))
+              | Err x => XErr x m3
+              end)
+        | _ => XErr ENeedOracle m2
+        end
+    | None =>
+        pop2s m2 (fun b a m3 =>
+          pushr m3 (match binop_of_tok op with
+                    | Some bop => spec_binop o bop a b
+                    | None => match op with
+                              | TDotDot => vm_range a b
+                              | _ => Err EInternal
+                              end
+                    end))
+    end)).
+Proof.
+  intros g op l r m Hne.
+  destruct op; try (exfalso; apply Hne; reflexivity); reflexivity.
+Qed.
 Lemma sx_ternary_S : forall f c t e m,
   sx (S f) (ETernary c t e) m =
   then_ (sx f c m) (fun m1 => pop1s m1 (fun v m2 => if truthy v then sx f t m2 else sx f e m2)).
@@ -301,30 +335,14 @@ Proof.
                         end)))).
     apply then_mono; [apply Hx|reflexivity|exact H].
   - (* EInfix *)
-    change (sx (S (S f)) (EInfix op l r) m) with
-      (then_ (sx (S f) l m) (fun m1 => then_ (sx (S f) r m1) (fun m2 =>
-        match mutator_op op with
-        | Some bop =>
-            match l with
-            | EIdent name =>
-                pop2s m2 (fun b a m3 =>
-                  match spec_binop o bop a b with
-                  | Ok v => XNormal (set_menv m3 (env_set (menv m3) (trim_dollar name) v))
-                  | Err x => XErr x m3
-                  end)
-            | _ => XErr ENeedOracle m2
-            end
-        | None =>
-            pop2s m2 (fun b a m3 =>
-              pushr m3 (match binop_of_tok op with
-                        | Some bop => spec_binop o bop a b
-                        | None => match op with
-                                  | TPeriod => spec_index o a b
-                                  | TDotDot => vm_range a b
-                                  | _ => Err EInternal
-                                  end
-                        end))
-        end))).
+    destruct (tokty_eq_dec op TPeriod) as [->|Hne].
+    { (* `l.r`: only l is evaluated *)
+      change (then_ (sx (S f) l m) (fun m1 => pop1s m1 (fun a m2 =>
+                pushr m2 (match estr 64 r with Some name => spec_index o a (VStr name) | None => Err ENeedOracle end))) =
+              then_ (sx f l m) (fun m1 => pop1s m1 (fun a m2 =>
+                pushr m2 (match estr 64 r with Some name => spec_index o a (VStr name) | None => Err ENeedOracle end)))).
+      apply then_mono; [apply Hx|reflexivity|exact H]. }
+    rewrite sx_infix_S in H by exact Hne. rewrite !sx_infix_S by exact Hne.
     apply then_mono; [apply Hx| |exact H].
     intros m1 H1. apply then_mono; [apply Hx|reflexivity|exact H1].
   - (* ETernary *)
@@ -599,7 +617,12 @@ Proof.
   - (* EIdent *) cbn [ExecFun.sx]. apply keeps_pushr.
   - (* EPrefix *) cbn [ExecFun.sx]. apply res_ok_then; [apply Hx|]. intros m1 K1.
     apply res_ok_pop1s. intros v s. rewrite <- K1. apply (keeps_pushr (set_stk m1 s)).
-  - (* EInfix *) cbn [ExecFun.sx]. apply res_ok_then; [apply Hx|]. intros m1 K1.
+  - (* EInfix *)
+    destruct (tokty_eq_dec op TPeriod) as [->|Hne].
+    { rewrite sx_dot_S. generalize (estr 64 r) as on. intro on.
+      apply res_ok_then; [apply Hx|]. intros m1 K1.
+      apply res_ok_pop1s. intros v s. rewrite <- K1. apply (keeps_pushr (set_stk m1 s)). }
+    rewrite sx_infix_S by exact Hne. apply res_ok_then; [apply Hx|]. intros m1 K1.
     apply res_ok_then; [rewrite <- K1; apply Hx|]. intros m2 K2.
     destruct (mutator_op op).
     + destruct l; try exact I. apply res_ok_pop2s. intros a b' s.
@@ -1918,7 +1941,13 @@ Proof.
     eexists. reflexivity.
   - (* EInfix *) cbn [nocall] in Hn. split_and.
     destruct (is_mutator op) eqn:Emu; [discriminate|]. cbn [negb andb] in *. split_and.
-    cbn [ExecFun.sx] in H. rewrite (not_mutator op Emu) in H.
+    destruct (tokty_eq_dec op TPeriod) as [->|Hne].
+    { (* `l.r`: only l runs *)
+      rewrite sx_dot_S in H. revert H. generalize (estr 64 r) as on. intros on H. inv_then H m1 E1.
+      apply pop1s_inv in H. destruct H as (v & s & Es & H). apply pushr_inv in H. destruct H as (v' & ->).
+      destruct (Hop g h l m m1) as (v0 & E0); try assumption. rewrite Es in E0. injection E0 as _ ->.
+      eexists. reflexivity. }
+    rewrite sx_infix_S in H by exact Hne. rewrite (not_mutator op Emu) in H.
     inv_then H m1 E1. inv_then H m2 E2. apply pop2s_inv in H. destruct H as (b & a & s & Es & H).
     apply pushr_inv in H. destruct H as (v' & ->).
     destruct (Hop g h l m m1) as (v1 & S1); try assumption.
@@ -1979,7 +2008,7 @@ Proof.
   destruct e as [t z|t x|s|b|v fl|n|op r|op l r|n op|c t e'|l|l|l i|fn args|n v|n|c cns alt|c body|idx ident v body|n ps b|v cs];
     cbn [moded_stmt_expr] in Hm; try (apply (Hval g Hm); intros; discriminate).
   - (* EInfix *) destruct (is_mutator op) eqn:Emu; [|apply (Hval g Hm); intros; discriminate].
-    cbn [nocall] in Hn. split_and. cbn [ExecFun.sx] in H.
+    cbn [nocall] in Hn. split_and. rewrite sx_infix_S in H by (intros ->; discriminate Emu).
     inv_then H m1 E1. inv_then H m2 E2.
     destruct (Hop g h l m m1) as (v1 & S1); try assumption.
     destruct (Hop g h r m1 m2) as (v2 & S2); try assumption.
